@@ -48,7 +48,7 @@ Case gen_C09(uint64_t seed, long run, const GenCfg &g, const char *inflight) {
     Rng r(mix3(seed, 9, (uint64_t)run));
     Case c; c.property = "C09"; c.seed = seed; c.run = run; c.variant = g.variant;
     bool history_mode = r.chance(0.2);
-    int nt = history_mode ? r.range(2, 5) : r.range(2, 4);
+    int nt = history_mode ? r.range(2, 5) : r.range(2, g.thorough ? 6 : 4);
     for (int i = 0; i < nt; i++) c.tasks.push_back(gen_task(r, g.thorough));
     c.sched_seed = r.next();
     double u = r.unit();
